@@ -92,6 +92,7 @@ BUILTIN_NAMES = {
     "id", "callable", "issubclass", "round", "pow", "format",
 }
 BUILTIN_EXC = set(ops.BUILTIN_EXC_NAMES)
+KNOWN_EXT_BASES = {"object", "str", "Enum", "Generic", "Protocol", "ABC", "NamedTuple"}
 
 
 class Interp:
@@ -124,6 +125,8 @@ class Interp:
         self.track_loads = False
         self.dedupe_sites = False
         self.retry_loop_cap = 0
+        self.persistent_ids = set()        # ids of containers that outlive a path (bundled registry data): mutations are rolled back per path
+        self._jstack = []
         self.shared_ids = {}   # id(value) -> name of the class-level / module-level object it is
         self.trace_sites = []
         self.watch = None  # optional callable(event dict)
@@ -146,13 +149,17 @@ class Interp:
             self.steps = 0
             self.depth = 0
             self.theory.reset()
+            self._journal_push()
             try:
-                value = thunk()
-                out = Outcome("return", value)
-            except Raised as r:
-                out = Outcome("raise", r.exc)
-            except Infeasible:
-                out = Outcome("infeasible")
+                try:
+                    value = thunk()
+                    out = Outcome("return", value)
+                except Raised as r:
+                    out = Outcome("raise", r.exc)
+                except Infeasible:
+                    out = Outcome("infeasible")
+            finally:
+                self._journal_pop()
             out.events = self.events
             out.assumptions = self.assumptions
             out.choices = [c for c, _ in self.trace]
@@ -184,8 +191,35 @@ class Interp:
         self.trace_sites.append(site if self.dedupe_sites else None)
         return c
 
+    def _journal(self, obj):
+        """Called before a container is mutated: a container that outlives the path (registry data, class / module level objects)
+        is snapshotted once per path and put back when the path ends, so that every path starts from the same data."""
+        if not self._jstack or not isinstance(obj, (dict, list)):
+            return
+        if id(obj) not in self.persistent_ids and id(obj) not in self.shared_ids:
+            return
+        lvl = self._jstack[-1]
+        if id(obj) in lvl[0]:
+            return
+        lvl[0].add(id(obj))
+        lvl[1].append((obj, dict(obj) if isinstance(obj, dict) else list(obj)))
+
+    def _journal_push(self):
+        self._jstack.append((set(), []))
+
+    def _journal_pop(self):
+        ids, entries = self._jstack.pop()
+        for obj, snap in reversed(entries):
+            if isinstance(obj, dict):
+                obj.clear()
+                obj.update(snap)
+            else:
+                obj[:] = snap
+
     def event(self, kind, **kw):
         kw["kind"] = kind
+        if kind in ("mutate", "store_item"):
+            self._journal(kw.get("obj"))
         self.events.append(kw)
         if self.watch:
             self.watch(kw)
@@ -476,6 +510,15 @@ class Interp:
         if ops.is_dataclass(cls):
             return ops.make_dataclass(self, cls, args, kwargs, node)
         exts = cls.ext_bases(prog)
+        if ops.namedtuple_fields(self, cls) is not None:
+            new = cls.lookup(prog, "__new__")
+            if new is not None and new[1] == "method":
+                raise CannotEvaluate("NamedTuple with its own __new__")
+            return ops.make_namedtuple(self, cls, args, kwargs, node)
+        unknown = [e for e in exts if e.split(".")[-1] not in KNOWN_EXT_BASES and e.split(".")[-1] not in ops.BUILTIN_EXC_NAMES]
+        if unknown:
+            # instances of a class with a base the model does not know must not be invented: the evaluation gives up
+            raise CannotEvaluate(f"class {cls.short} has an external base outside the model ({unknown[0]})")
         if any(e in ("enum.Enum", "Enum") for e in exts):
             raise CannotEvaluate("enum construction")
         new = cls.lookup(prog, "__new__")
@@ -642,10 +685,33 @@ class Interp:
                         obj.written = set()
                     obj.written.add(target.attr)
 
+    def _retry_counter(self, st):
+        """`while c < N:` with `c += k` in the body and no other use of c: a retry loop written with a counter.  -> (name, exit value)"""
+        t = st.test
+        if not (isinstance(t, ast.Compare) and len(t.ops) == 1 and isinstance(t.left, ast.Name) and isinstance(t.ops[0], (ast.Lt, ast.LtE))
+                and isinstance(t.comparators[0], ast.Constant) and isinstance(t.comparators[0].value, int)):
+            return None
+        c = t.left.id
+        incs = [x for x in st.body if isinstance(x, ast.AugAssign) and isinstance(x.target, ast.Name) and x.target.id == c
+                and isinstance(x.op, ast.Add) and isinstance(x.value, ast.Constant) and isinstance(x.value.value, int) and x.value.value > 0]
+        if len(incs) != 1:
+            return None
+        uses = [n for b in st.body for n in ast.walk(b) if isinstance(n, ast.Name) and n.id == c]
+        if len(uses) != 1:   # only the target of the increment
+            return None
+        bound = t.comparators[0].value
+        return c, (bound if isinstance(t.ops[0], ast.Lt) else bound + 1)
+
     def st_While(self, st, frame):
         n = 0
+        counter = self._retry_counter(st) if self.retry_loop_cap else None
         while self.eval_cond(st.test, frame):
             n += 1
+            if counter is not None and n > self.retry_loop_cap:
+                # counter-style retry loop: iterations are abstractly identical (the counter is used for nothing else); as for
+                # `for _ in range(N)` the remaining iterations are skipped and the loop leaves through its exhausted exit
+                frame.env[counter[0]] = counter[1]
+                break
             if n > 200:
                 raise AnalysisError("while loop does not stabilise within 200 abstract iterations")
             try:
@@ -656,8 +722,90 @@ class Interp:
                 continue
         self.exec_block(st.orelse, frame)
 
+    _MUTATORS = {"append", "extend", "add", "update", "insert", "pop", "remove", "clear", "setdefault", "sort", "reverse", "discard", "popitem"}
+
+    def _for_over_bag(self, st, frame, bag, enum_start):
+        """`for x in <string of unknown length>`: one abstract iteration after forgetting everything the loop carries.
+        Sound for 'which exceptions can escape' and for values that do not depend on the carried state; every variable the body
+        stores to (or mutates through a method / subscript / attribute store) is an unknown value during and after the loop."""
+        carried = set()
+        for b in st.body:
+            for n in ast.walk(b):
+                if isinstance(n, ast.Name) and isinstance(n.ctx, (ast.Store, ast.Del)):
+                    carried.add(n.id)
+                elif isinstance(n, (ast.Attribute, ast.Subscript)) and isinstance(n.ctx, (ast.Store, ast.Del)):
+                    r = n
+                    while isinstance(r, (ast.Attribute, ast.Subscript)):
+                        r = r.value
+                    if isinstance(r, ast.Name):
+                        if r.id in ("self", "cls"):
+                            raise CannotEvaluate("loop over a string of unknown length stores to object state")
+                        carried.add(r.id)
+                elif isinstance(n, ast.Call) and isinstance(n.func, ast.Attribute) and n.func.attr in self._MUTATORS and isinstance(n.func.value, ast.Name):
+                    carried.add(n.func.value.id)
+                elif isinstance(n, (ast.Global, ast.Nonlocal, ast.Return, ast.Yield, ast.YieldFrom)):
+                    if not isinstance(n, ast.Return):
+                        raise CannotEvaluate("loop over a string of unknown length with global / nonlocal / yield")
+        if bag.lo == 0 and self.choose(2, "loop over a possibly empty string") == 0:
+            self.exec_block(st.orelse, frame)
+            return
+        if bag.hi == 0:
+            self.exec_block(st.orelse, frame)
+            return
+
+        from .values import UnknownInt
+        why = "carried by a loop over a string of unknown length"
+
+        def is_int(v):
+            return isinstance(v, UnknownInt) or (not isinstance(v, bool) and ops.as_intset(v) is not None)
+
+        def cell(nm):
+            g = frame
+            while g is not None:
+                if nm in g.env:
+                    return g
+                g = g.closure
+            return None
+
+        # integer accumulators stay integers if one iteration maps "some integer" to an integer (induction over the iterations)
+        int_candidates = {nm for nm in carried if cell(nm) is not None and is_int(cell(nm).env[nm])}
+
+        def havoc(keep_int):
+            for nm in carried:
+                g = cell(nm)
+                if g is not None:
+                    g.env[nm] = UnknownInt(why) if nm in keep_int else Unknown(why)
+
+        havoc(int_candidates)
+        if enum_start is None:
+            self.assign(st.target, bag.cs, frame)
+        else:
+            idx = Interval(enum_start, enum_start + max(bag.hi - 1, 0)) if bag.hi > 1 else enum_start
+            self.assign(st.target, (idx, bag.cs), frame)
+        def still_int():
+            return {nm for nm in int_candidates if cell(nm) is not None and is_int(cell(nm).env[nm])}
+
+        try:
+            self.exec_block(st.body, frame)
+        except _Break:
+            if still_int() != int_candidates:
+                raise CannotEvaluate("loop over a string of unknown length changes the type of an accumulator")
+            havoc(int_candidates)
+            return
+        except _Continue:
+            pass
+        if still_int() != int_candidates:
+            raise CannotEvaluate("loop over a string of unknown length changes the type of an accumulator")
+        havoc(int_candidates)
+        self.exec_block(st.orelse, frame)
+
     def st_For(self, st, frame):
-        it = ops.iterate(self, self.eval(st.iter, frame), st.iter)
+        src = self.eval(st.iter, frame)
+        if isinstance(ops.strval(src), ABag):
+            return self._for_over_bag(st, frame, ops.strval(src), None)
+        if isinstance(src, libmodel_EnumBag()):
+            return self._for_over_bag(st, frame, src.bag, src.start)
+        it = ops.iterate(self, src, st.iter)
         if self.retry_loop_cap and len(it) > self.retry_loop_cap and isinstance(st.target, ast.Name) and st.target.id == "_":
             # `for _ in range(N)` retry loops: iterations are abstractly identical, the cap keeps path counts finite
             it = it[: self.retry_loop_cap]
@@ -801,6 +949,15 @@ class Interp:
             if name in f.env:
                 return f.env[name]
             f = f.closure
+        cs = getattr(frame, "cls_scope", None)
+        if cs is not None:
+            # evaluating a class-level expression: names bound earlier in the class body are visible (not inherited ones)
+            if name in cs.nested:
+                return ClsRef(cs.nested[name])
+            if name in cs.attrs:
+                return self.class_attr(cs, name)
+            if name in cs.methods:
+                return FuncRef(cs.methods[name])
         return self.module_name(frame.module, name, node)
 
     def module_name(self, module, name, node=None):
@@ -874,10 +1031,6 @@ class Interp:
             return self._class_attr_cache[key]
         fr = Frame(None, cls.module, {})
         fr.cls_scope = cls
-        # names of earlier class attributes are visible in the class body
-        for k, nm, st in cls.body_order:
-            if k == "attr" and nm != name and nm in cls.attrs:
-                pass
         saved = getattr(self, "cur_frame", None)
         try:
             v = self.eval(cls.attrs[name], fr)
@@ -1290,6 +1443,7 @@ class SubRun:
                 it.depth = saved[5]
                 it.cur_frame = saved[4]
                 it.undo_log = []
+                it._journal_push()
                 try:
                     try:
                         out = Outcome("return", thunk())
@@ -1298,7 +1452,11 @@ class SubRun:
                     except Infeasible:
                         out = Outcome("infeasible")
                 finally:
+                    it._journal_pop()
                     for obj, attr, old in reversed(it.undo_log):
+                        if attr == "\0strval":
+                            obj.strval = old
+                            continue
                         if old is _MISSING:
                             obj.attrs.pop(attr, None)
                         else:
